@@ -53,6 +53,47 @@ func errJSON(code, msg, data, meta string) string {
 	return `{"error":{"code":` + jsonString(code) + `,"message":` + jsonString(msg) + d + `}` + meta + `}`
 }
 
+// ParamsT and TokenT are the Go types the handlers parse the params and the
+// token of a request into (actions "pp" and "pt"); the model decodes into the
+// same types with encoding/json to predict the outcome.
+type ParamsT struct {
+	N int `json:"n"`
+}
+
+// TokenT: see ParamsT.
+type TokenT struct {
+	T int `json:"t"`
+}
+
+// ExpandParse rewrites the actions "pp" (ParseParams) and "pt" (ParseToken)
+// of a script for a request with the given raw params and token: into "y"
+// when the call returns, into the panic it raises otherwise.
+func ExpandParse(script []string, params, token string) []string {
+	out := make([]string, 0, len(script))
+	for _, a := range script {
+		switch a {
+		case "pp":
+			a = "y"
+			if len(params) > 0 {
+				var v ParamsT
+				if err := json.Unmarshal([]byte(params), &v); err != nil {
+					a = "p:reserrmsg:system.invalidParams|" + err.Error()
+				}
+			}
+		case "pt":
+			a = "y"
+			if len(token) > 0 {
+				var v TokenT
+				if err := json.Unmarshal([]byte(token), &v); err != nil {
+					a = "p:reserrmsg:system.internalError|Internal error: " + err.Error()
+				}
+			}
+		}
+		out = append(out, a)
+	}
+	return out
+}
+
 // PredictResponse walks a handler behaviour script. handler is the handler
 // kind invoked ("access", "get", "new", "call:..", "auth:.."), id the
 // request id the script embeds in its values, isHTTP whether the request was
@@ -72,6 +113,12 @@ func PredictResponse(handler string, script []string, id int, isHTTP bool, rname
 			return
 		}
 		replied = true
+		if strings.HasPrefix(kind, "reserrmsg:") {
+			cm := strings.SplitN(kind[len("reserrmsg:"):], "|", 2)
+			ex.Payload = errJSON(cm[0], cm[1], "", meta())
+			ex.Code = cm[0]
+			return
+		}
 		if kind == "reserrnomsg" {
 			ex.Payload = errJSON("test.nomsg", "", "", meta())
 			ex.Code = "test.nomsg"
@@ -149,6 +196,10 @@ func PredictResponse(handler string, script []string, id int, isHTTP bool, rname
 				panicked("reserr", "")
 			case "reserrnomsg":
 				panicked("reserrnomsg", "")
+			default:
+				if strings.HasPrefix(arg, "reserrmsg:") {
+					panicked(arg, "")
+				}
 			case "err":
 				panicked("err", "plain error "+sid)
 			case "wraperr":
